@@ -281,6 +281,22 @@ fn c15_idempotence(c: &SanCase, cx: &mut CaseCtx) -> Result<(), String> {
     if again != plain {
         return Err(format!("sanitizing already-sanitized output changes it: output {} -> re-sanitized {} (plain re-serialisation {}); config {b:?}; input {}", clip(&out), clip(&again), clip(&plain), clip(&html_in)));
     }
+    // the string helpers: applied once and twice
+    if b.is_plain_mode() {
+        let mode = if b.mode == 1 { HtmlSanitizerMode::Strict } else { HtmlSanitizerMode::Compat };
+        let rr = if b.remove_reply_fallback { RemoveReplyFallback::Yes } else { RemoveReplyFallback::No };
+        let once = sanitize_html(&html_in, mode, rr);
+        let twice = sanitize_html(&once, mode, rr);
+        let plain = reserialize(&once);
+        if twice != plain {
+            return Err(format!("sanitize_html applied to its own output changes it: output {} -> again {} (plain re-serialisation {}); input {}", clip(&once), clip(&twice), clip(&plain), clip(&html_in)));
+        }
+        if once != out {
+            return Err(format!("sanitize_html differs from Html::sanitize_with for the same mode: {} vs {}; input {}", clip(&once), clip(&out), clip(&html_in)));
+        }
+        cx.class_if(!html_in.contains('<') && !html_in.contains('&'), "input_without_markup_or_references");
+        cx.class_if(!html_in.contains('<') && !html_in.contains('&') && reserialize(&html_in) != html_in, "markup_free_input_rewritten_by_serializer");
+    }
     let changed = out != reserialize(&html_in);
     cx.class_if(changed, "first_pass_changed_something");
     cx.nontrivial_if(changed);
@@ -355,7 +371,7 @@ fn c15_deprecated(c: &DeprecatedCase, cx: &mut CaseCtx) -> Result<(), String> {
 fn san_case(builder_share: u32) -> impl Strategy<Value = SanCase> {
     let helper = (any::<bool>(), any::<bool>()).prop_map(|(s, r)| B::helper(s, r));
     let config = prop_oneof![(10 - builder_share) => helper.boxed(), builder_share => policy::builder_config().boxed()];
-    (gen::nodes(4), config).prop_map(|(doc, config)| SanCase { doc, config })
+    (prop_oneof![12 => gen::nodes(4).boxed(), 1 => gen::text_only().boxed()], config).prop_map(|(doc, config)| SanCase { doc, config })
 }
 
 fn main() {
@@ -405,6 +421,7 @@ fn main() {
             let n = ck.n(5_000, 200_000);
             ck.prop("deprecated_rewritten", n, || (gen::deprecated_document(), any::<bool>()).prop_map(|((input, expected), strict)| DeprecatedCase { input, expected, strict }), c15_deprecated);
             ck.floor("idempotence_modes", "first_pass_changed_something", 5000);
+            ck.floor("idempotence_modes", "markup_free_input_rewritten_by_serializer", 100);
             ck.floor("clean_documents_unchanged", "clean_document", 10000);
             ck.floor("clean_documents_unchanged", "with_table", 300);
             ck.floor("clean_documents_unchanged", "with_reply_fallback_kept", 300);
